@@ -221,6 +221,7 @@ def run(P, R, tier):
                     R.check(fn in ('self.__class__', 'type(self)', 'cls'), 'C16.d', f, s, f'{name} constructs the receiver\'s own class', f'{name} constructs `{fn}`: a derived ring/polygon array changes its kind')
     R.floor('C16.d', 'derivation constructor sites', nd, 6)
     take_small_scope(P, R, ga)
+    getitem_small_scope(P, R, ga)
     selection_shortcuts(P, R, ga)
     common.forward(P, R, 'C01', ['C01.n'], 'C16.b', 'a selection answers intersects_bounds like its source: every row is decided by the exact kernel, not by a shortcut on the array\'s own total_bounds', floor=10)
     common.forward(P, R, 'C13', ['C13.a', 'C13.b', 'C13.i'], 'C16.b', 'bounds of a derived array are computed from exactly its own elements', floor=10)
@@ -395,6 +396,66 @@ def bitmap_small_scope(P, R, ex):
     R.check(not bad, 'C16.a', ex, None, f'the missing mask equals the cleared bits [offset, offset + n) of the validity bitmap on all {total} evaluated (offset, length, pattern) cases',
             f'the missing mask differs from the validity bits on {len(bad)} of {total} cases, e.g. {bad[:2]}: a sliced array reads the validity of other elements',
             construct='validity bitmap small-scope equivalence', counterexamples=bad[:4])
+
+
+def getitem_small_scope(P, R, ga):
+    """C16.f (whole function, exhaustive within the scope): `arr[item]` for an integer vector, a boolean mask or a slice is interpreted by E-VEC
+    (with `take` inlined) on arrays of length n <= 4.  Integer vector: the positions [i mod n], in order, IndexError outside -n <= i < n.  Mask of the
+    array's length: the positions that are True; any other length: IndexError.  Slice: exactly the positions Python's slice selects."""
+    import itertools as _it
+    import veceval
+    mem = ga.members.get('__getitem__')
+    if mem is None or mem[0] != 'func':
+        return
+    f = mem[1]
+    ip = f.params[1]
+    cases = []
+    for n_ in range(0, 5):
+        for ln in range(0, 4 if n_ else 2):
+            for vals in _it.product(range(-2 * n_ - 1, n_ + 1), repeat=ln):
+                vals = list(vals)
+                valid = all(-n_ <= i < n_ for i in vals)
+                cases.append((n_, vals, [i % n_ for i in vals] if valid and n_ else ([] if not vals else 'raise'), 'integer vector'))
+        for ln in sorted({max(n_ - 1, 0), n_, n_ + 1}):
+            for m in _it.product((False, True), repeat=ln):
+                if ln == 0:
+                    continue
+                cases.append((n_, list(m), [k for k, b in enumerate(m) if b] if ln == n_ else 'raise', 'boolean mask'))
+        ends = [None] + list(range(-n_ - 2, n_ + 3))
+        for lo in ends:
+            for hi in ends:
+                for st in (None, 1, 2, -1, -2, 3):
+                    cases.append((n_, slice(lo, hi, st), list(range(n_))[slice(lo, hi, st)], 'slice'))
+    bad, total, undec = [], 0, None
+    for n_, item, want, kind in cases:
+        total += 1
+        ev = veceval.VecEval(P, f, {ip: list(item) if isinstance(item, list) else item}, n_)
+        ev.inline_take = True
+        try:
+            ev.block(f.node.body)
+            got = 'no return'
+        except veceval.Returned as r_:
+            got = r_.value
+        except veceval.Unsupported as e_:
+            undec = f'{kind}: {e_}'
+            break
+        except (IndexError, TypeError, ValueError, ZeroDivisionError) as e_:
+            got = f'error {type(e_).__name__}'
+        if isinstance(got, veceval.SelfSlice):
+            pos = got.positions(n_)
+        elif isinstance(got, veceval.Gather):
+            pos = list(got.idx)
+        else:
+            pos = got
+        if pos != want:
+            bad.append({'n': n_, 'item': str(item), 'positions returned': pos if isinstance(pos, list) else str(pos), 'wanted': want if want != 'raise' else 'IndexError'})
+    if undec:
+        R.abstain('C16.f', f, None, f'__getitem__ uses a construct the small-scope evaluator does not model ({undec})', construct='__getitem__ small-scope equivalence')
+        return
+    R.count('typed_ops', total)
+    R.exhaustive_sites['C16.f arr[item]: integer vectors (length <= 3 over -2n-1..n), masks (lengths n-1..n+1), slices (ends -n-2..n+2, steps None,1,2,-1,-2,3), n <= 4'] = True
+    R.check(not bad, 'C16.f', f, None, f'arr[item] selects exactly the requested positions for integer vectors, boolean masks and slices, and rejects out-of-range items ({total} items)',
+            f'arr[item] differs from positional selection on {len(bad)} of {total} items, e.g. {bad[:3]}', construct='__getitem__ small-scope equivalence', counterexamples=bad[:5])
 
 
 def take_small_scope(P, R, ga):
